@@ -105,6 +105,10 @@ type modSpec struct {
 	// SharedBase: another module of the tree has the same file name in another
 	// directory; such modules are always imported under an alias
 	SharedBase bool
+	// Decoy: a module whose file has the name of a directory of the tree
+	// (pkg.risor next to pkg/) and whose globals have the names of the modules
+	// in that directory
+	Decoy bool
 }
 
 func (m *modSpec) last() string {
@@ -175,6 +179,12 @@ func moduleSource(mods []*modSpec, i int) string {
 			fmt.Fprintf(&b, "%s.bump()\n", bind)
 		}
 	}
+	if m.Decoy {
+		// variables named like the modules of the directory with this name
+		for _, n := range []string{"m0", "m1", "m2", "m3", "m4", "m5", "sub", "bump2"} {
+			fmt.Fprintf(&b, "%s := \"decoy-variable-of-%s\"\n", n, m.Path)
+		}
+	}
 	return b.String()
 }
 
@@ -204,6 +214,7 @@ func (mm *modModel) imp(mods []*modSpec, i int) {
 }
 
 type c14Prog struct {
+	Nested bool // the nested-spawn snippet over nestmod is part of Main
 	Mods      []*modSpec
 	Main      string
 	Expected  []string
@@ -251,6 +262,21 @@ func genModules(g *sim.Stream) []*modSpec {
 		}
 		m.BumpDeps = g.Bool()
 		mods = append(mods, m)
+	}
+	if g.Chance(1, 4) {
+		for _, dir := range []string{"pkg", "lib"} {
+			has := false
+			for _, m := range mods {
+				if strings.HasPrefix(m.Path, dir+"/") {
+					has = true
+				}
+			}
+			if has && !used[dir] && len(mods) < 7 {
+				mods = append(mods, &modSpec{Path: dir, Decoy: true})
+				used[dir] = true
+				break
+			}
+		}
 	}
 	bases := map[string]int{}
 	for _, m := range mods {
@@ -370,6 +396,14 @@ func genC14(g *sim.Stream, f *sim.Stream) *c14Prog {
 				obs(fmt.Sprint(bd.mod))
 			}
 		}
+	}
+	if g.Chance(1, 4) {
+		// a goroutine is the first to import a module, changes its state and
+		// then spawns another goroutine that imports it too: one body run, one
+		// state (the second goroutine is cloned from the first, after the import)
+		p.Nested = true
+		b.WriteString("nst := spawn(func() {\n  import nestmod as nx\n  nx.bump()\n  gch := spawn(func() { import nestmod as ny; return [ny.get(), ny.bump()] })\n  r := gch.wait()\n  return [nx.get(), r[0], r[1]]\n})\nobs.append(nst.wait())\n")
+		obs("[2, 1, 2]")
 	}
 	b.WriteString("obs\n")
 	p.Main = b.String()
@@ -508,6 +542,7 @@ func runC14(rc *fw.RunCtx) {
 		sfs.Files[m.Path+".risor"] = moduleSource(prog.Mods, i)
 	}
 	sfs.Files["outside_probe_inside.risor"] = "tick(\"inside-decoy\")\n"
+	sfs.Files["nestmod.risor"] = "tick(\"nestmod\")\nstate := 0\nfunc bump() { state = state + 1; return state }\nfunc get() { return state }\n"
 	var imp importer.Importer
 	root := ""
 	scratch := ""
@@ -676,6 +711,7 @@ func runC14(rc *fw.RunCtx) {
 			// same names, other contents: every body reports itself as "B:<path>"
 			sfsB.Files[m.Path+".risor"] = strings.Replace(moduleSource(prog.Mods, i), fmt.Sprintf("tick(%q)", m.Path), fmt.Sprintf("tick(%q)", "B:"+m.Path), 1)
 		}
+		sfsB.Files["nestmod.risor"] = strings.Replace(sfs.Files["nestmod.risor"], "tick(\"nestmod\")", "tick(\"B:nestmod\")", 1)
 		impB := importer.NewFSImporter(importer.FSImporterOptions{GlobalNames: names, SourceFS: sfsB, Extensions: []string{".risor", ".rsr"}})
 		g3 := baseGlobals(map[string]any{"tick": th3.builtin(), "maybe_fail": th3.failBuiltin()})
 		opts3 := []risor.Option{risor.WithoutDefaultGlobals(), risor.WithGlobals(g3), risor.WithConcurrency(), risor.WithImporter(impB)}
@@ -807,6 +843,10 @@ func runC14(rc *fw.RunCtx) {
 	}
 	if out.Err != nil {
 		rc.Violate("error/unexpected", "program failed: %v", out.Err)
+		return
+	}
+	if th.ticks["nestmod"] > 1 {
+		rc.Violate("once/nested-spawn-after-import", "a module first imported by a goroutine ran its top-level code %d times: the goroutine it spawned afterwards imported it again (program %q)", th.ticks["nestmod"], main)
 		return
 	}
 	// ---- clause 2: a module body runs at most once per evaluation
